@@ -262,3 +262,44 @@ def _ct(g):
 
 
 rel('ComputedTorque', 'ComputedTorque', _ct, shape_bound='1 joint', max_paths=60)
+
+
+class _Purity(Rel):
+    """the ported dynamics functions are pure: a call's result does not depend on earlier calls with other link frames /
+    inertias at the same joint state (no stale module-level state); both calls equal the reference"""
+    fname = 'MassMatrix'
+    target = MR + ':MassMatrix'
+    shape_bound = '1 joint, two different models at one joint state'
+    max_paths = 60
+
+    def run(self, g, fn, a, kw):
+        if g.mode == 'sample':
+            _dyn_args(g, 1, 'ForwardDynamics')
+            for i in range(2):
+                g.reals('N%dp' % i, 3, scale=1.0)
+            for i in range(4):
+                g.real('H0_%d' % i, lo=0.1, hi=5.0)
+            return None
+        port = g.module(MR)
+        ref = ref_module(g)
+        th, dth, tau, grav, F, Ml, Gl, Sl = _dyn_args(g, 1, 'ForwardDynamics')
+        Ml2 = [S.RpT(S.eye(3, th), g.reals('N%dp' % i, 3, scale=1.0)) for i in range(2)]
+        Gl2 = [spd6(g, 'H0_')]
+        cp = lambda x: x.copy() if isinstance(x, _np.ndarray) else [y.copy() for y in x]
+        out = []
+        for (M_, G_) in ((Ml, Gl), (Ml2, Gl2), (Ml, Gl)):
+            out.append((ref.MassMatrix(cp(th), cp(M_), cp(G_), cp(Sl)), port.MassMatrix(cp(th), cp(M_), cp(G_), cp(Sl))))
+            out.append((ref.VelQuadraticForces(cp(th), cp(dth), cp(M_), cp(G_), cp(Sl)),
+                        port.VelQuadraticForces(cp(th), cp(dth), cp(M_), cp(G_), cp(Sl))))
+        return out
+
+    def post(self, g, out, a, kw):
+        if out is None:
+            return
+        for k, (r, p) in enumerate(out):
+            nm = ('MassMatrix', 'VelQuadraticForces')[k % 2] + ' call %d of a sequence with alternating models' % (k // 2 + 1)
+            g.eq(nm + ' equals the reference', _np.asarray(p, dtype=object) if g.symbolic else _np.asarray(p, dtype=float),
+                 _np.asarray(r, dtype=object) if g.symbolic else _np.asarray(r, dtype=float))
+
+
+register(type('Rel_dynamics_call_sequence', (_Purity,), dict()))
